@@ -18,9 +18,14 @@ if [ -f "$D/demo.py" ]; then
   (cd "$D" && PYTHONPATH="$WT/src" timeout 600 /venv/bin/python demo.py >/dev/null 2>&1); demo_changed=$?
 fi
 mkdir -p .scratch/seed
+# private copy of the Coq tree so that regenerated Gen files of the changed tree never touch the shared one
+SC="$(pwd)/.scratch/seedcoq_$$"
+rm -rf "$SC"; cp -r coq "$SC"
+export VERIF_COQ="$SC"
 LOG=".scratch/seed/$(basename $(dirname $D))_$(basename $D)_$P.log"
 VERIF_REPO="$WT" ./check "$P" --tier "$TIER" > "$LOG" 2>&1
 rc=$?
 git -C /repo worktree remove --force "$WT"
+rm -rf "$SC"
 echo "SEED $D $P: demo clean=$demo_clean changed=$demo_changed | check rc=$rc | $(grep -c '^VIOLATION' $LOG) VIOLATION lines | $(grep '^VIOLATION' $LOG | head -1 | cut -c1-160)"
 grep -A1 '^VIOLATION' "$LOG" | grep 'what:' | head -2 | cut -c1-220
